@@ -391,9 +391,10 @@ def _chain_py_ast(
     The dependency statements of every element are emitted ahead of the expression which
     will contain the element nodes. To keep evaluation strictly left to right, any
     element whose value is computed by its expression node (anything other than a
-    constant or a bare name) is first stored in a temporary if a later element
-    contributes dependency statements, since those statements would otherwise run
-    before it."""
+    constant) is first stored in a temporary if a later element contributes dependency
+    statements, since those statements would otherwise run before it. That includes
+    bare names: a `def` among those statements may rebind the global a Var reference
+    reads."""
     all_deps = [list(n.dependencies) for n in genned]
     last_with_deps = max((i for i, d in enumerate(all_deps) if d), default=-1)
 
@@ -404,7 +405,7 @@ def _chain_py_ast(
         if (
             i < last_with_deps
             and isinstance(n.node, ast.expr)
-            and not isinstance(n.node, (ast.Constant, ast.Name))
+            and not isinstance(n.node, ast.Constant)
         ):
             tmp_name = genname("ordered")
             deps.append(
